@@ -1,37 +1,43 @@
-import MesaModel.Proofs.CellSpaces
+import MesaModel.Proofs.CellDyn
 /-!
 # C06 — cell spaces: `agent.cell` and `cell.agents` mirror each other; capacity; emptiness views
 
 Property theorems only (model: `Model/CellSpace.lean`, helper lemmas: `Proofs/CellSpace.lean`,
 `Proofs/CellSpaces.lean`).
 
-`Reachable sp s`: `s` is the state of the space `sp` after *any* finite history of operations
-(creating CellAgents / FixedAgents / Grid2DMovingAgents, `a.cell = c`, `a.cell = None`, `move_to`,
-`move_relative`, `Grid2DMovingAgent.move`, `remove`, switching the empty-cell search strategy,
-`select_random_empty_cell`, `select_random_cell`) — accepted and rejected calls alike, with any
-arguments (unknown agents, coordinates that are no cell, missing directions, full cells, …).
+`Reachable sp s`: `s` is the occupancy state and `sp` the space (with its connections as they are now) after
+*any* finite history, started on any well-formed freshly built space, of operations (creating CellAgents /
+FixedAgents / Grid2DMovingAgents, `a.cell = c`, `a.cell = None`, `move_to`, `move_relative`,
+`Grid2DMovingAgent.move`, `remove`, switching the empty-cell search strategy, `select_random_empty_cell`,
+`select_random_cell`) — accepted and rejected calls alike, with any arguments (unknown agents, coordinates
+that are no cell, missing directions, full cells, …) — *interleaved with connection edits*
+(`Cell.connect(other, key)` / `Cell.disconnect(other)` on cells of the space, after construction).
 `SpaceOK sp` holds for every grid (Moore / von Neumann in any dimension, hex), every `Network` and
-every `VoronoiGrid` of the model (`C06_spaces_wellformed`).
+every `VoronoiGrid` of the model (`C06_spaces_wellformed`) and is kept by every edit.
 -/
 namespace Mesa.Cells
 
-/-- states reachable from a freshly built space by any history -/
-def Reachable (sp : Space) (s : State) : Prop := ∃ ops : List Op, s = run sp (init sp) ops
+/-- states reachable from a freshly built well-formed space by any history of agent operations and connection
+    edits; `sp` is the space as the edits left it -/
+def Reachable (sp : Space) (s : State) : Prop :=
+  ∃ (sp0 : Space) (ops : List DOp), SpaceOK sp0 ∧ drun sp0 (init sp0) ops = (sp, s)
 
-theorem reachable_inv {sp : Space} (hsp : SpaceOK sp) {s : State} (h : Reachable sp s) : Inv sp s := by
-  obtain ⟨ops, rfl⟩ := h
-  exact run_inv hsp.closed (inv_init sp) ops
+theorem reachable_inv {sp : Space} (_hsp : SpaceOK sp) {s : State} (h : Reachable sp s) : Inv sp s := by
+  obtain ⟨sp0, ops, hsp0, he⟩ := h
+  have := (drun_inv hsp0 (inv_init sp0) ops).2.1
+  rw [he] at this
+  exact this
 
 theorem Reachable.step {sp : Space} {s : State} (h : Reachable sp s) (op : Op) :
     Reachable sp (step sp s op).1 := by
-  obtain ⟨ops, rfl⟩ := h
-  refine ⟨ops ++ [op], ?_⟩
-  have : ∀ (s0 : State) (l : List Op), run sp s0 (l ++ [op]) = (Mesa.Cells.step sp (run sp s0 l) op).1 := by
-    intro s0 l
-    induction l generalizing s0 with
-    | nil => rfl
-    | cons x l ih => exact ih _
-  exact (this _ _).symm
+  obtain ⟨sp0, ops, hsp0, he⟩ := h
+  refine ⟨sp0, ops ++ [.op op], hsp0, ?_⟩
+  rw [drun_append, he]
+  rfl
+
+/-- a history without connection edits on a well-formed space (the notion of the first version of this file) -/
+theorem reachable_of_run {sp : Space} (hsp : SpaceOK sp) (ops : List Op) : Reachable sp (run sp (init sp) ops) :=
+  ⟨sp, ops.map .op, hsp, drun_ops sp (init sp) ops⟩
 
 /-- All space types of the model are well-formed: grids of every kind, dimension vector, torus flag and
     capacity (hex: 2-D), networks on any edge list over nodes 0..n-1 (directed or not), Voronoi grids on
@@ -234,6 +240,21 @@ theorem C06_direction_map_generated :
 theorem C06_invariant_all_histories {sp : Space} (hsp : SpaceOK sp) (ops : List Op) :
     Inv sp (run sp (init sp) ops) := run_inv hsp.closed (inv_init sp) ops
 
+/-- Connection edits after construction (`Cell.connect` / `Cell.disconnect`): for every history of agent
+    operations interleaved with edits, on every well-formed space, the edited space is still well-formed (its
+    connections lead to its own cells), it has the cells, capacities and kind it was built with, the occupancy
+    state is `Reachable` (so every theorem of this file holds for it, with relative moves following the edited
+    connections) and satisfies the full invariant; an edit never touches the occupancy state; and histories
+    without edits are the special case. -/
+theorem C06_histories_with_connection_edits {sp0 : Space} (hsp0 : SpaceOK sp0) (ops : List DOp) :
+    let r := drun sp0 (init sp0) ops
+    SpaceOK r.1 ∧ Reachable r.1 r.2 ∧ Inv r.1 r.2 ∧
+    r.1.cells = sp0.cells ∧ r.1.cap = sp0.cap ∧ r.1.isGrid = sp0.isGrid ∧
+    (∀ c c2 key, (dstep r.1 r.2 (.connect c c2 key)).1.2 = r.2 ∧ (dstep r.1 r.2 (.disconnect c c2)).1.2 = r.2) ∧
+    (∀ l : List Op, drun sp0 (init sp0) (l.map .op) = (sp0, run sp0 (init sp0) l)) := by
+  obtain ⟨h1, h2, h3, h4, h5⟩ := drun_inv hsp0 (inv_init sp0) ops
+  exact ⟨h1, ⟨sp0, ops, hsp0, rfl⟩, h2, h3, h4, h5, fun _ _ _ => ⟨rfl, rfl⟩, fun l => drun_ops sp0 (init sp0) l⟩
+
 /-! ### non-vacuity -/
 
 -- a 2×2 Moore torus with capacity 1: place, rejected move into a full cell (S11 witness: nothing changes),
@@ -248,5 +269,17 @@ example : (run sp0 (init sp0) ops0).cellOf 0 = some [0, 0] ∧ (run sp0 (init sp
 example : (step sp0 (run sp0 (init sp0) ops0) (.setCell 0 (some [0, 0]))).2 = .ok := by decide
 example : (step sp0 (run sp0 (init sp0) ops0) (.randEmpty [0, 3, 1])).2 = .okCell [0, 1] := by decide
 example : (step sp0 (run sp0 (init sp0) ops0) (.gridMove 0 "N" 1)).2 = .err .attr := by decide
+
+-- connection edits: a long-range connection added to cell (0,0) of a 3×3 grid under a new key is followed by
+-- `move_relative`; after `disconnect` the key is gone again; edits to coordinates that are no cells are rejected
+private def sp1 : Space := gridSpace .vn [3, 3] false none
+private def dops1 : List DOp :=
+  [.op (.new .cell), .op (.setCell 0 (some [0, 0])), .connect [0, 0] [2, 2] (some [7, 7]), .op (.moveRel 0 [7, 7])]
+example : SpaceOK sp1 := gridSpace_ok _ _ _ _ (by simp)
+example : (drun sp1 (init sp1) dops1).2.cellOf 0 = some [2, 2] ∧ (drun sp1 (init sp1) dops1).2.occ [2, 2] = [0] := by decide
+example : (step sp1 (run sp1 (init sp1) [.new .cell, .setCell 0 (some [0, 0])]) (.moveRel 0 [7, 7])).2 = .err .noCell := by decide
+example : (dstep (drun sp1 (init sp1) dops1).1 (drun sp1 (init sp1) dops1).2 (.connect [0, 0] [3, 3] none)).2 = .err .key := by decide
+example : ((drun sp1 (init sp1) (dops1 ++ [.disconnect [0, 0] [2, 2]])).1.conn [0, 0]).map (·.1) = [[0, 1], [1, 0]] := by decide
+example : (editSp (vorSpace 3 [(0, 1, 2)] none) (.connect [0] [1] none)).2 = .err .type := by decide
 
 end Mesa.Cells
